@@ -28,11 +28,45 @@ REGS = ("BA", "I", "X", "Y", "U", "S", "PC")
 # execution on the real code path
 # --------------------------------------------------------------------------------------------------
 
+class RawMemory(pycore.HashMemory):
+    """HashMemory that additionally keeps the *raw* address of every data access that lies outside the documented
+    address space [0, ADDRESS_SPACE_SIZE) = external 00000..FFFFF + internal 100000..1000FF (constants.py).
+    pycore.canon() folds such addresses back (internal offsets mod 256, external bits 20-23 dropped), which is what
+    the location/value comparison wants, but it also hides an access that only *aliases* the denoted byte under
+    that folding: the maintainers' strict test memory (test_llama_parity_misc._make_memory) raises IndexError for
+    it, and PCE500Memory maps every raw address >= 100000h to internal memory."""
+
+    def __init__(self, *a: Any, **k: Any) -> None:
+        super().__init__(*a, **k)
+        self.outside: List[Tuple[str, int]] = []
+
+    def read_byte(self, address: int) -> int:
+        if self.log_reads and not pycore.is_canonical(address):
+            self.outside.append(("read", int(address)))
+        return super().read_byte(address)
+
+    def write_byte(self, address: int, value: int) -> None:
+        if not pycore.is_canonical(address):
+            self.outside.append(("write", int(address)))
+        super().write_byte(address, value)
+
+
+def _make_emulator(case: Dict[str, Any]) -> Tuple[Any, RawMemory]:
+    """pycore.make_emulator with the raw-address logging memory."""
+    from sc62015.pysc62015.emulator import Emulator
+
+    mem = RawMemory(int(case.get("seed", 0)), {pycore.canon(a): v & 0xFF for a, v in case.get("mem", [])}, True)
+    emu = Emulator(mem, reset_on_init=False)  # type: ignore[arg-type]
+    pycore.set_regs(emu, case.get("regs", {}))
+    emu.state.halted = case.get("power", "running") != "running"
+    return emu, mem
+
+
 def execute(case: Dict[str, Any]) -> Dict[str, Any]:
     """One Emulator.execute_instruction on a HashMemory; data reads are separated from instruction fetch by
     switching the read log off while Emulator.decode_instruction runs (the decoder looks one instruction ahead,
     so fetch is not simply [pc, pc+len)); execute_instruction re-reads the opcode byte once afterwards."""
-    emu, mem = pycore.make_emulator(case, log_reads=True)
+    emu, mem = _make_emulator(case)
     orig = emu.decode_instruction
 
     def dec(address: int, read_fn: Any = None) -> Any:
@@ -49,6 +83,25 @@ def execute(case: Dict[str, Any]) -> Dict[str, Any]:
     if reads and reads[0] == pc:
         reads = reads[1:]
     out["reads"] = reads
+    out["outside"] = [[k, a] for k, a in mem.outside[:16]]
+    return out
+
+
+def address_space_verdicts(obs: Dict[str, Any]) -> List[Tuple[str, str, str]]:
+    """Data accesses whose raw address is outside the documented address space (see RawMemory)."""
+    out: List[Tuple[str, str, str]] = []
+    seen: Set[str] = set()
+    for kind, a in obs.get("outside", []):
+        if 0x100100 <= a < 0x101000:
+            how = "internal-memory offset runs past (FF) without wrapping to (00)"
+        elif a > 0x1000FF:
+            how = "address beyond the 1 MiB external space (bits 20-23 set)"
+        else:
+            how = "negative address"
+        sym = f"{kind} outside the address space: {how}"
+        if sym not in seen:
+            seen.add(sym)
+            out.append(("address-space", sym, "raw addresses " + ",".join(f"{x:#x}" for k, x in obs["outside"][:6])))
     return out
 
 
@@ -276,12 +329,25 @@ def undocumented_form(mn: str, ops: List[Tuple[Any, ...]], opcode: int) -> Optio
     return None
 
 
-def judge(case: Dict[str, Any], want_obs: bool = False) -> Judgement:
+CODE_WINDOW = 24      # bytes at PC treated as code: instruction (<= 7) + following instruction (<= 7) + NOP padding
+
+
+def judge(case: Dict[str, Any], want_obs: bool = False, _nofollow: bool = False) -> Judgement:
     j = Judgement()
-    code = S.code_of(case, 8)
-    r = TP.tokens(code + G.NOP_PAD)
-    if r is None:
+    # The instruction under test may be followed by another instruction (generated dimension: the decoder looks one
+    # instruction ahead).  Its length is taken from the decode in context; the *text* that drives the reference is
+    # rendered from the instruction's own bytes followed by NOPs: the documented meaning of an encoding does not
+    # depend on the bytes after it (fusion(): "Bytes *after* instr1 ... must not affect instr1").
+    ctx_code = S.code_of(case, CODE_WINDOW)
+    r0 = TP.tokens(ctx_code)
+    if r0 is None:
         j.status = "undecodable"
+        return j
+    code = ctx_code[:r0[1]]
+    r = TP.tokens(code + G.NOP_PAD)
+    if r is None or r[1] != r0[1]:
+        j.status = "undecodable"
+        j.reason = "length in context differs from the length of the isolated encoding"
         return j
     toks, length = r
     j.length = length
@@ -322,7 +388,7 @@ def judge(case: Dict[str, Any], want_obs: bool = False) -> Judgement:
     # operands must not overlap the instruction bytes (+ decoder look-ahead): fetch and data would be conflated
     pc = regs["PC"] & RS.M20
     touched = set(prim.writes) | prim.rd_data | prim.rd_addr
-    if any(pc <= a < pc + length + 8 for a in touched):
+    if any(pc <= a < pc + CODE_WINDOW for a in touched):
         j.status = "skip"
         j.reason = "operand overlaps the code bytes"
         return j
@@ -338,6 +404,25 @@ def judge(case: Dict[str, Any], want_obs: bool = False) -> Judgement:
     if obs.get("len") != length:
         j.val.append(("length", "executed length differs from rendered length", f"{obs.get('len')} vs {length}"))
         return j
+    _judge_outcome(j, case, exps, prim, obs, mn, ops, regs, peek, length)
+    j.loc += address_space_verdicts(obs)
+    if (j.loc or j.val) and not _nofollow and any(ctx_code[length:]):
+        # does the verdict depend on the instruction that follows?  (semantic input tag, as '[b+Cin wraps]')
+        c2 = dict(case)
+        span = {(pc + i) & RS.M20 for i in range(length, CODE_WINDOW)}
+        c2["mem"] = [m_ for m_ in case["mem"] if pycore.canon(m_[0]) not in span] + [[a, 0] for a in sorted(span)]
+        j2 = judge(c2, _nofollow=True)
+        if j2.status == "ok":
+            tag = " [depends on the following instruction]"
+            keep_l = {(sub, sym) for sub, sym, _ in j2.loc}
+            keep_v = {(sub, sym) for sub, sym, _ in j2.val}
+            j.loc = [(sub, sym if (sub, sym) in keep_l else sym + tag, det) for sub, sym, det in j.loc]
+            j.val = [(sub, sym if (sub, sym) in keep_v else sym + tag, det) for sub, sym, det in j.val]
+    return j
+
+
+def _judge_outcome(j: Judgement, case: Dict[str, Any], exps: List[RS.Expect], prim: RS.Expect, obs: Dict[str, Any],
+                   mn: str, ops: List[Tuple[Any, ...]], regs: Dict[str, int], peek: Any, length: int) -> None:
     best_loc: Optional[List[Tuple[str, str, str, str]]] = None
     ok_exps = []
     for e in exps:
@@ -357,7 +442,7 @@ def judge(case: Dict[str, Any], want_obs: bool = False) -> Judgement:
             comps = rest
         for sub, space, sym, det in comps:
             j.loc.append((sub, sym, det))
-        return j
+        return
     best_val: Optional[List[Tuple[str, str, str]]] = None
     for e in ok_exps:
         vv = val_compare(e, regs, obs)
@@ -367,7 +452,6 @@ def judge(case: Dict[str, Any], want_obs: bool = False) -> Judgement:
     if j.val and prim.tags:
         tag = " [" + ", ".join(prim.tags) + "]"
         j.val = [(sub, sym + tag, det) for sub, sym, det in j.val]
-    return j
 
 
 # --------------------------------------------------------------------------------------------------
@@ -380,7 +464,11 @@ from . import c03_gen as GN  # noqa: E402
 
 def annotate(case: Dict[str, Any], j: Judgement) -> Dict[str, Any]:
     c = dict(case)
-    c["code"] = S.code_of(case, 7).hex()
+    n = j.length or 7
+    c["code"] = S.code_of(case, n).hex()
+    follow = S.code_of(case, CODE_WINDOW)[n:n + 8]
+    if any(follow):
+        c["followed_by"] = follow.hex()
     c["text"] = j.text
     return c
 
@@ -449,28 +537,59 @@ def flip_checks(case: Dict[str, Any], j: Judgement, st: S.Stream) -> List[Tuple[
     return []
 
 
-def explore_shard(task: Tuple[str, int, int, int, int, int, int]) -> Report:
-    prop, shard, nshards, seed, count, imax, salt = task
+def explore_shard(task: Tuple[Any, ...]) -> Report:
+    """task = (prop, shard, nshards, seed, count, imax, salt[, focus]).  focus None: cycle over all (prefix, opcode)
+    pairs; focus (count = repetitions per (prefix, head)) 'blockwrap' / 'ptr-edge': boundary grids over the MVL/MVLD encodings resp. the encodings with a
+    [r3++] / [--r3] operand (see c03_gen.focus_heads)."""
+    prop, shard, nshards, seed, count, imax, salt = task[:7]
+    focus = task[7] if len(task) > 7 else None
     seed = mix32(seed, salt, 0x5EED)     # decorrelate neighbouring VERIF_SEED values
+    if focus:
+        seed = mix32(seed, 0xF0C5, len(focus))
     rep = Report()
     ops_list = GN.opcodes()
+    heads = GN.focus_heads(focus) if focus else []
     npairs = len(ops_list) * len(G.PRES)
+    if focus:
+        total = len(heads) * len(G.PRES) * count          # for a focus grid `count` = repetitions per (prefix, head)
+        count = (total - shard + nshards - 1) // nshards if total > shard else 0
     for k in range(count):
         idx = shard + k * nshards
         st = S.Stream(seed, salt, idx)
-        pair = (idx * 7919) % npairs if False else idx % npairs
-        pre = G.PRES[pair // len(ops_list)]
-        op = ops_list[pair % len(ops_list)]
-        code = GN.draw_encoding(st, pre, op)
+        if focus:
+            pre = G.PRES[idx % len(G.PRES)]
+            op, b2 = heads[(idx // len(G.PRES)) % len(heads)]
+            code = GN.draw_encoding(st, pre, op, b2=b2, hi_bias=(focus == "blockwrap"))
+        else:
+            pair = idx % npairs
+            pre = G.PRES[pair // len(ops_list)]
+            op = ops_list[pair % len(ops_list)]
+            code = GN.draw_encoding(st, pre, op)
         if code is None:
             rep.filtered += 1
             continue
+        # what follows the instruction in memory is a generated dimension (the decoder looks one instruction ahead):
+        # NOPs 1/2, another encoding of the same (prefix, opcode) with fresh operand bytes 1/4, any valid encoding 1/4
+        fk = st.below(4)
+        follow: Optional[bytes] = b""
+        flabel = "follow:nop"
+        if fk == 2:
+            follow = GN.draw_encoding(st, pre, op)
+            flabel = "follow:same-opcode"
+        elif fk == 3:
+            follow = GN.draw_encoding(st, st.choice(G.PRES), st.choice(ops_list))
+            flabel = "follow:other-instruction"
+        if not follow:
+            follow, flabel = b"", "follow:nop"
         big = imax > 64 and st.chance(1, 6)
-        mc = GN.make_case(st, code, imax if big else min(imax, 24))
+        mc = GN.make_case(st, code, imax if big else min(imax, 24), follow=follow, focus=focus)
         if mc is None:
             rep.filtered += 1
             continue
         case, labels, mn, ops = mc
+        labels.append(flabel)
+        if focus:
+            labels.append("focus:" + focus)
         j = judge(case)
         record(prop, rep, case, j, labels, op, pre, st)
     return rep
@@ -552,7 +671,7 @@ def shrink_case(prop: str, v: Violation) -> Violation:
                 case, best = c2, b
                 break
     keep = []
-    code_addrs = {(pc + i) & 0xFFFFF for i in range(16)}
+    code_addrs = {(pc + i) & 0xFFFFF for i in range(CODE_WINDOW)}
     for m in list(case["mem"]):
         if m[0] in code_addrs or _t.time() - t0 > 50:
             continue
